@@ -37,14 +37,15 @@ Definition rejects (p : policy) (len : nat) (count : nat) : bool :=
 (** Walk the alternatives: each action that runs is an event; stop at the
     first action that does not reject. Returns events, counters, text length
     of the accepted alternative (0 when every alternative rejected). *)
-Fixpoint walk (pol : N -> policy) (c : counters) (al : list (N * nat)) : list (N * nat) * counters * nat :=
+Fixpoint walk (hl : N -> nat -> nat) (pol : N -> policy) (c : counters) (al : list (N * nat)) : list (N * nat) * counters * nat :=
   match al with
   | [] => ([], c, O)
   | (r, k) :: rest =>
       let c' := cincr c r in
-      if rejects (pol r) k (cget c r)
-      then let '(ev, c2, n) := walk pol c' rest in ((r, k) :: ev, c2, n)
-      else ([(r, k)], c', k)
+      let h := hl r k in                     (* what the action sees: the head of a trailing-context rule *)
+      if rejects (pol r) h (cget c r)
+      then let '(ev, c2, n) := walk hl pol c' rest in ((r, h) :: ev, c2, n)
+      else ([(r, h)], c', h)
   end.
 
 (** rules treated as variable trailing context carry a head marker *)
@@ -55,7 +56,7 @@ Definition spec_start_r (p : program) (vars : list N) (sc : N) (bol : bool) : ss
               then [(fst ir + HEAD_MASK, denote (p_csize p) (r_fl (snd ir)) (r_head (snd ir)))] else [])
            (number_from 1 (p_rules p)).
 
-Fixpoint rej_tokens (fuel : nat) (altf : bool -> list byte -> list (N * nat)) (pol : N -> policy)
+Fixpoint rej_tokens (fuel : nat) (hl : N -> nat -> nat) (altf : bool -> list byte -> list (N * nat)) (pol : N -> policy)
          (c : counters) (bol : bool) (w : list byte) : list (N * nat) :=
   match fuel with
   | O => []
@@ -64,19 +65,26 @@ Fixpoint rej_tokens (fuel : nat) (altf : bool -> list byte -> list (N * nat)) (p
       | [] => []
       | _ =>
           (* alternatives of length 0 are never offered first: the default rule matches one byte *)
-          let '(ev, c', n) := walk pol c (altf bol w) in
+          let '(ev, c', n) := walk hl pol c (altf bol w) in
           match n with
           | O => ev
-          | _ => ev ++ rej_tokens f altf pol c' (bol_after bol (firstn n w)) (skipn n w)
+          | _ => ev ++ rej_tokens f hl altf pol c' (bol_after bol (firstn n w)) (skipn n w)
           end
       end
   end.
 
-Definition spec_rej_tokens (fuel : nat) (p : program) (sc : N) (pol : N -> policy) (bol : bool) (w : list byte) :=
-  rej_tokens fuel (fun b u => salts (sobs_of (spec_start p sc b)) u) pol [] bol w.
+Require Import FlexV.GenParse.
+Definition spec_head_len (p : program) (r : N) (k : nat) : nat :=
+  match rule_of p r with
+  | Some rl => match rule_kind rl with TcHead n => n | TcTail n => k - n | _ => k end
+  | None => k
+  end.
 
-Definition view_rej_tokens (fuel : nat) (t : rtab) (sc : N) (pol : N -> policy) (bol : bool) (w : list byte) :=
-  rej_tokens fuel (fun b u => ralts t (St (start_of (c_bol (r_c t)) (Z.of_N sc - 1) b)) u) pol [] bol w.
+Definition spec_rej_tokens (fuel : nat) (p : program) (sc : N) (pol : N -> policy) (bol : bool) (w : list byte) :=
+  rej_tokens fuel (spec_head_len p) (fun b u => salts (sobs_of (spec_start p sc b)) u) pol [] bol w.
+
+Definition view_rej_tokens (fuel : nat) (t : rtab) (adj : N -> option (bool * nat)) (sc : N) (pol : N -> policy) (bol : bool) (w : list byte) :=
+  rej_tokens fuel (adjust adj) (fun b u => ralts t (St (start_of (c_bol (r_c t)) (Z.of_N sc - 1) b)) u) pol [] bol w.
 
 (** ** selection in scanners with variable trailing context (no REJECT in actions) *)
 Definition racclRaw (t : rtab) (i : ist) : list N :=
